@@ -529,6 +529,11 @@ func (fr *Frame) havocTarget(env *Env, e Expr, st *State) error {
 			}
 			return nil
 		}
+		if isIfaceT(v.T) && v.Addr == nil {
+			// the object behind an interface value (e.g. the circuit builder behind frontend.API): its state is
+			// opaque to the typed memory, nothing to havoc; the frame check (frames.go) accounts for the writes
+			return nil
+		}
 		if v.Addr != nil {
 			fr.havocRange(st, v.Addr, v.T)
 			return nil
